@@ -52,11 +52,30 @@ fn enc_result<T: ColumnType>(r: Result<Vec<Record<T>>, ParseError>) -> String {
 }
 
 pub fn run_parse(strict: bool, text: &str) -> String {
+    // three public ways into the parser (the file name only shows in error locations, which are
+    // compared by line): chosen by a hash of the text, so that a replay takes the same one
+    let entry = text.bytes().fold(0xcbf29ce484222325u64, |h, b| (h ^ b as u64).wrapping_mul(0x100000001b3)) % 3;
     let res = catch_unwind(AssertUnwindSafe(|| {
         if strict {
-            enc_result(parse_with_name::<StrictType>(text, "f.slt"))
+            match entry {
+                0 => enc_result(parse::<StrictType>(text)),
+                _ => enc_result(parse_with_name::<StrictType>(text, "f.slt")),
+            }
         } else {
-            enc_result(parse_with_name::<DefaultColumnType>(text, "f.slt"))
+            match entry {
+                0 => enc_result(parse::<DefaultColumnType>(text)),
+                1 if !text.contains("include") => {
+                    let base = std::env::var("SLT_SCRATCH").unwrap_or_else(|_| "/verif/out/scratch".into());
+                    let dir = std::path::PathBuf::from(base).join(format!("parse_{}", std::process::id()));
+                    let _ = std::fs::create_dir_all(&dir);
+                    let path = dir.join("f.slt");
+                    std::fs::write(&path, text).unwrap();
+                    let r = parse_file::<DefaultColumnType>(&path);
+                    let _ = std::fs::remove_file(&path);
+                    enc_result(r)
+                }
+                _ => enc_result(parse_with_name::<DefaultColumnType>(text, "f.slt")),
+            }
         }
     }));
     match res {
